@@ -6,6 +6,7 @@ from vlib import *
 import pyed
 
 
+THOROUGH_ROUNDS = 5      # repetitions of the conformance part in the thorough tier (fresh random draws each)
 def gen(rng, quick):
     ops = [{"op": "info"}, {"op": "ris.basepoint_compressed"}]
     N = 1 if quick else 6
